@@ -128,6 +128,9 @@ func cases(tier string, want func(docIdx int64) bool, f func(idx int64, doc, mod
 	nModes := len(modes)
 	// emit runs one document through the first nm modes (the six named modes; or all, incl. the option matrix)
 	emitN := func(nm int, mk func() string) {
+		if !ok {
+			return
+		}
 		if want(docIdx) {
 			doc := mk()
 			for mi := 0; mi < nm; mi++ {
@@ -210,6 +213,9 @@ func cases(tier string, want func(docIdx int64) bool, f func(idx int64, doc, mod
 	// lines around the scanner's token limit (64 KiB) and far beyond it
 	for _, ln := range []int{4095, 4096, 65500, 65535, 65536, 65537, 100000, 262143, 262145, 300000} {
 		for _, pre := range []string{"- ", "  - ", "# "} {
+			if !ok {
+				break
+			}
 			emitN(8, func() string {
 				lines := []string{"- a", "  - b", "- c"}
 				if pre == "  - " {
